@@ -203,6 +203,47 @@ def leak_checks(chk):
                            detail=f"declared {sorted(declared)} ({sorted(decl_kind)}), expected {sorted(want)}\n{sx.show(out.result)}")
 
 
+def first_iterable_scope(chk):
+    """Python evaluates the first iterable of a comprehension in the *enclosing* scope (language reference 6.2.4); the
+    lifted generator-function strategy must do the same, otherwise the two strategies differ as soon as the iterable names a
+    class-level variable or a variable with the iteration variable's own name.  Structural clause on tokens: the token of
+    the first iterable is not inside the lifted function.  The concrete programs are the replayable witnesses."""
+    import hy
+    for head in ("lfor", "sfor", "gfor", "dfor"):
+        for where in ("do", "elt", "if", "iterable2"):
+            it = Tok("xs", "E")
+            a = Tok("a", "SE")
+            parts = [S("ux"), it]
+            if where == "do":
+                parts += [Keyword("do"), a]
+            elif where == "if":
+                parts += [Keyword("if"), a]
+            elif where == "iterable2":
+                parts += [S("uz"), a]
+            final = [a] if where == "elt" else [Tok("e", "E")]
+            if head == "dfor":
+                final = final + [Tok("val", "E")]
+            out = sx.run_rule(E(S(head), *parts, *final))
+            name = f"scope/first iterable is evaluated outside the lifted function/{head}/statements in {where}"
+            chk.case(name)
+            if not out.ok:
+                chk.ob(name, False, "structural", "proved", detail=repr(out.exc)[:200])
+                continue
+            fds = [s for s in out.result.stmts if isinstance(s, (ast.FunctionDef, ast.AsyncFunctionDef))]
+            inside = any(t is it for fd in fds for _, t in sx.walk_toks(fd))
+            src = {"lfor": "(lfor x xs :do (setv z 0) x)", "sfor": "(sorted (sfor x xs :do (setv z 0) x))", "gfor": "(list (gfor x xs :do (setv z 0) x))",
+                   "dfor": "(dfor x xs :do (setv z 0) x x)"}[head]
+            prog = f"(defclass A [] (setv xs [1 2]) (setv ys {src})) A.ys"
+            try:
+                got = repr(hy.eval(hy.read_many(prog), module=__import__("types").ModuleType("hv_c04_scope")))
+            except Exception as e:  # noqa: BLE001
+                got = f"{type(e).__name__}: {e}"
+            chk.ob(name, len(fds) == 1 and not inside, "structural", "proved",
+                   detail=f"the iterable token is {'inside' if inside else 'outside'} the lifted function\n{sx.show(out.result)}\n"
+                          f"witness: {prog}  ->  {got}",
+                   replay={"confirmed": "Error" in got, "input": prog, "observed": got, "expected": "[1, 2] / {1: 1, 2: 2}"})
+
+
 def zero_clause_checks(chk):
     """Without clauses the form evaluates to an empty collection of the right type (tests/native_tests/comprehensions.hy)."""
     for head, want in (("lfor", []), ("sfor", set()), ("dfor", {}), ("gfor", [])):
@@ -225,6 +266,7 @@ def run(chk):
     from hv.replay import replay_mismatch
     rules.run_cases(chk, names, replay_fn=replay_mismatch)
     leak_checks(chk)
+    first_iterable_scope(chk)
     chk.fn("hy/core/result_macros.py::compile_comprehension", "hy/scoping.py::ScopeGen.assign/access/iterator/finalize/__enter__",
            "hy/scoping.py::is_inside_function_scope, nearest_python_scope")
     chk.trust("pysem comprehension/generator model", "hysem nested-loop semantics (docs/api.rst lfor)",
